@@ -79,7 +79,11 @@ struct Truth {
     ahead: Vec<(usize, u64)>,             // (client, event) offered before the client had visited the event's creation state
     beyond_retention: bool,               // some commit was first offered to a client more than `retention` epochs late
     merges: Vec<(usize, u64)>,
-    late: BTreeSet<(usize, u64)>,          // application messages first offered when the receiver's epoch differed from the sender's
+    late: BTreeSet<(usize, u64)>,
+    offered: Vec<BTreeSet<u64>>,           // events already offered to each client
+    rollback_then_refused: bool,
+    stale_proposal: bool,                  // a proposal was offered to a client that had already left its epoch
+    leave_to_admin_with_pending: bool,          // application messages first offered when the receiver's epoch differed from the sender's
     refusal_changed: Vec<String>,
 }
 
@@ -100,6 +104,31 @@ fn run_world<S: MdkStorageProvider, F: Fn(usize) -> S>(run: &mut Run, lines_in: 
         }
         return;
     }
+    // corpus first: hand-written minimal histories for every known finding class (and past failures)
+    if let Ok(c) = std::fs::read_to_string("/verif/corpus/proto.txt") {
+        let mut cur: Option<(World<S>, Vec<String>, Truth, BTreeSet<u64>)> = None;
+        let mut flush = |run: &mut Run, cur: &mut Option<(World<S>, Vec<String>, Truth, BTreeSet<u64>)>| {
+            if let Some((mut w, mut seq, mut truth, live)) = cur.take() { oracles(run, &mut w, &mut seq, backend, &live, &mut truth); }
+        };
+        for l in c.lines().filter(|l| !l.is_empty() && !l.starts_with('#')) {
+            let t: Vec<&str> = l.split(' ').collect();
+            if t[1] == "RESET" {
+                flush(run, &mut cur);
+                let (n, mask, ret): (usize, u64, usize) = (t[2].parse().unwrap(), t[3].parse().unwrap(), t[4].parse().unwrap());
+                let w: World<S> = World::new(n, mask, ret, &mk);
+                run.case("RESET", false, l.to_string(), "RESET".into());
+                cur = Some((w, vec![l.to_string()], Truth { retention: ret as u64, visited: vec![BTreeSet::from([0u64]); n], offered: vec![BTreeSet::new(); n], ..Default::default() }, BTreeSet::new()));
+                continue;
+            }
+            if let Some((w, seq, truth, live)) = cur.as_mut() {
+                let (line, fp) = step(w, l, truth, run, backend, seq);
+                if ["COMMIT", "SEND", "LEAVE", "BAD"].contains(&t[1]) { if let Ok(e) = t[if t[1] == "COMMIT" { 4 } else if t[1] == "BAD" { 2 } else { 3 }].parse::<u64>() { live.insert(e); } }
+                seq.push(line.clone());
+                run.case("corpus", true, line, fp);
+            }
+        }
+        flush(run, &mut cur);
+    }
     for h in 0..nhist {
         let n = 3 + r.below(2) as usize;
         let admin_mask = 1 | (r.below(1 << n) & !1) ;
@@ -112,7 +141,7 @@ fn run_world<S: MdkStorageProvider, F: Fn(usize) -> S>(run: &mut Run, lines_in: 
         push(run, "RESET", false, reset, "RESET".into());
         let nsteps = steps / 2 + g.r.below(steps);
         let mut rolled = false;
-        let mut truth = Truth { retention: retention as u64, visited: vec![BTreeSet::from([0u64]); n], ..Default::default() };
+        let mut truth = Truth { retention: retention as u64, visited: vec![BTreeSet::from([0u64]); n], offered: vec![BTreeSet::new(); n], ..Default::default() };
         for _ in 0..nsteps {
             let l = g.next(&w);
             let (line, fp) = step(&mut w, &l, &mut truth, run, backend, &seq);
@@ -138,19 +167,27 @@ fn step<S: MdkStorageProvider>(w: &mut World<S>, l: &str, truth: &mut Truth, run
     if t[1] == "DELIVER" {
         let ev: u64 = t[3].parse().unwrap();
         if let Some(info) = w.events.get(&ev) {
-            if !truth.visited[m].contains(&info.state) { truth.ahead.push((m, ev)); }
+            if !truth.visited[m].contains(&info.state) || info.refs.iter().any(|p| !truth.offered[m].contains(p)) { truth.ahead.push((m, ev)); }
             if info.kind == "commit" && w.mls_epoch(m) > info.epoch + truth.retention { truth.beyond_retention = true; }
             if info.kind == "app" && w.mls_epoch(m) != info.epoch { truth.late.insert((m, ev)); }
+            if info.kind == "prop" && w.mls_epoch(m) > info.epoch { truth.stale_proposal = true; }
         }
     }
     if t[1] == "MERGE" { truth.merges.push((m, t[3].parse().unwrap())); }
+    let rb_before = if t[1] == "DELIVER" { w.clients[m].cb.0.lock().unwrap().len() } else { 0 };
+    let leave_to_pending_admin = t[1] == "DELIVER" && w.events.get(&t[3].parse().unwrap()).map(|i| i.kind == "prop").unwrap_or(false)
+        && w.admin_mask & (1 << m) != 0 && w.pending_of(m).is_some();
     let (line, fp) = w.exec(l);
+    if t[1] == "DELIVER" { truth.offered[m].insert(t[3].parse().unwrap()); }
     if let Some(st) = fp.split(" st=").nth(1).and_then(|x| x.split(' ').next()).and_then(|x| x.parse::<u64>().ok()) { truth.visited[m].insert(st); }
     // C06: a refused event has no effect on the observable projection
     if let Some(b) = before {
         let refused = ["res=Err", "res=Unprocessable", "res=PreviouslyFailed", "res=IgnoredProposal"].iter().any(|k| fp.starts_with(k));
         if refused && strip(&fp) != b {
-            let cls = "";
+            let rolled = w.clients[m].cb.0.lock().unwrap().len() > rb_before;
+            let cls = if rolled { "rolled-back-then-refused" } else if leave_to_pending_admin { "leave-proposal-stored-although-auto-commit-failed" } else { "" };
+            if rolled { truth.rollback_then_refused = true; }
+            if leave_to_pending_admin { truth.leave_to_admin_with_pending = true; }
             run.oracle_fail("C06", cls, format!("[{backend}] refused event changed the client's state: `{l}` -> {fp}; before: {b}"), seq.join(" || ") + " || " + &line);
         }
     }
@@ -211,7 +248,7 @@ fn oracles<S: MdkStorageProvider>(run: &mut Run, w: &mut World<S>, seq: &mut Vec
     let on_chain = |st: u64| chain.contains(&st);
     let fork_merge = truth.merges.iter().any(|(_, ev)| { let p = w.events.get(ev).map(|i| i.state); w.events.iter().any(|(e2, i2)| e2 != ev && i2.kind == "commit" && Some(i2.state) == p && (live.contains(e2) || *e2 >= 1000)) });
     let ahead_on_chain = truth.ahead.iter().any(|(_, ev)| w.events.get(ev).map(|i| on_chain(i.state)).unwrap_or(false));
-    let class = if fork_merge { "merge-pending-commit-takes-no-snapshot" } else if ahead_on_chain { "event-offered-ahead-of-its-predecessor-never-retried" } else { "" };
+    let class = if fork_merge { "merge-pending-commit-takes-no-snapshot" } else if truth.rollback_then_refused { "rolled-back-then-refused" } else if truth.stale_proposal { "late-proposal-treated-as-mip03-candidate" } else if ahead_on_chain { "event-offered-ahead-of-its-predecessor-never-retried" } else { "" };
     let in_scope = !truth.beyond_retention;
     run.count(if !in_scope { "history:fork-deeper-than-retention" } else if class.is_empty() { "history:in-proved-regime" } else { "history:known-class" });
     // C01: all remaining (active) members hold the state MIP-03 selects
